@@ -49,6 +49,9 @@ type c14roles struct {
 	muFld      string
 	closeSites []*ssa.Call
 	notifiers  map[*ssa.Function]bool // functions containing a close site
+	// closeAddr: for a close of a channel kept in a local (ch := make(…); c.field = ch; close(ch)), the address
+	// of the field it was stored into
+	closeAddr map[*ssa.Call]ssa.Value
 }
 
 func structOf(n *types.Named) *types.Struct {
@@ -78,7 +81,7 @@ func basePathOf(v ssa.Value) (string, string, bool) {
 }
 
 func (c *Ctx) c14Roles(loopFn *ssa.Function) *c14roles {
-	ro := &c14roles{notifiers: map[*ssa.Function]bool{}}
+	ro := &c14roles{notifiers: map[*ssa.Function]bool{}, closeAddr: map[*ssa.Call]ssa.Value{}}
 	if loopFn.Signature.Recv() == nil {
 		return nil
 	}
@@ -106,6 +109,32 @@ func (c *Ctx) c14Roles(loopFn *ssa.Function) *c14roles {
 	for i := 0; i < st.NumFields(); i++ {
 		if flow.TypeIs(st.Field(i).Type(), "sync", "Mutex") {
 			ro.muFld = st.Field(i).Name()
+		}
+	}
+	// the channel made, stored into the field and closed through a local of the same function
+	if ro.notifyFld != "" {
+		for _, f := range c.P.LibraryFuncs() {
+			for _, ci := range flow.CallInstrs(f) {
+				call, ok := ci.(*ssa.Call)
+				if !ok || !isBuiltinCall(call, "close") {
+					continue
+				}
+				mk, ok := flow.Peel(call.Call.Args[0]).(*ssa.MakeChan)
+				if !ok {
+					continue
+				}
+				for _, ref := range flow.Referrers(mk) {
+					stv, ok := ref.(*ssa.Store)
+					if !ok || stv.Val != ssa.Value(mk) {
+						continue
+					}
+					if tn, fld, base, ok := flow.FieldOf(stv.Addr); ok && tn == ro.connT.Obj().Name() && fld == ro.notifyFld && flow.NamedOf(base.Type()) != nil && flow.NamedOf(base.Type()).Obj() == ro.connT.Obj() {
+						ro.closeSites = append(ro.closeSites, call)
+						ro.closeAddr[call] = stv.Addr
+						ro.notifiers[f] = true
+					}
+				}
+			}
 		}
 	}
 	// a close-and-mark helper (no lock of its own, unexported): the functions calling it notify as well
@@ -208,7 +237,11 @@ func runC14(c *Ctx) {
 	for i, cs := range ro.closeSites {
 		f := cs.Parent()
 		key := fmt.Sprintf("%s:close(%s)#%d", fname(f), ro.notifyFld, i+1)
-		bp, _, ok := basePathOf(cs.Call.Args[0])
+		closed := cs.Call.Args[0]
+		if a, viaLocal := ro.closeAddr[cs]; viaLocal {
+			closed = a
+		}
+		bp, _, ok := basePathOf(closed)
 		if !ok {
 			r.Undecided("R1", key, c.pos(cs), "cannot determine the access path of the closed channel")
 			continue
@@ -276,8 +309,25 @@ func runC14(c *Ctx) {
 			return false
 		}
 		if p := flow.PathAvoiding(f, cs, func(in ssa.Instruction) bool { return flow.IsExit(in) || isUnlock(in) || isRunDefers(in) }, isFlagStore); p != nil {
-			r.Fail("R1", key, c.pos(cs), "after closing the channel the gone flag is not set before the mutex is released: a second notifier closes the channel again (panic)", c.witness(p)...)
-			continue
+			// … or the flag was set just before the close, in the same critical section (the two orders are
+			// indistinguishable to anyone who needs the mutex to look)
+			before := false
+			flow.Instrs(f, func(in ssa.Instruction) {
+				if before || !flow.Dominates(in, cs) || !isFlagStore(in) {
+					return
+				}
+				if flow.PathAvoiding(f, in, func(x ssa.Instruction) bool { return x == ssa.Instruction(cs) }, isUnlock) == nil && mustHeldAt(f, in, mu, true) {
+					// every path from the store to the close passes an unlock: not the same section
+					return
+				}
+				if mustHeldAt(f, in, mu, true) {
+					before = true
+				}
+			})
+			if !before {
+				r.Fail("R1", key, c.pos(cs), "after closing the channel the gone flag is not set before the mutex is released: a second notifier closes the channel again (panic)", c.witness(p)...)
+				continue
+			}
 		}
 		_, goneFld, _, _ := flow.FieldOf(flagStore.Addr)
 		// guard: dominated by !gone, or fresh channel
@@ -833,6 +883,29 @@ func (c *Ctx) c14Switch(ro *c14roles, switchT *types.Named, read *ssa.Function, 
 			if isFreshBase(st.Addr) {
 				r.Ok("R5", key, c.pos(st), "initialisation of a freshly allocated connection")
 				return
+			}
+			// an initialisation helper of the constructor: the object is a parameter of an unexported function and
+			// every library call site hands it an object allocated right there
+			if root, _, okr := fieldPath(st.Addr); okr {
+				if p, isP := flow.Peel(root).(*ssa.Parameter); isP && (f.Object() == nil || !f.Object().Exported()) {
+					css := c.librarySites(f)
+					allFresh := len(css) > 0
+					for _, cs := range css {
+						i := paramIndex(f, p)
+						if i >= len(cs.Common().Args) {
+							allFresh = false
+							continue
+						}
+						a := flow.Peel(cs.Common().Args[i])
+						if al, isAl := a.(*ssa.Alloc); !isAl || !al.Heap {
+							allFresh = false
+						}
+					}
+					if allFresh {
+						r.Ok("R5", key, c.pos(st), "initialisation helper: every call site hands it a connection allocated right there")
+						return
+					}
+				}
 			}
 			if !okp {
 				r.Undecided("R5", key, c.pos(st), "cannot determine the access path of the switch")
